@@ -2,7 +2,8 @@
 
 COMMON_ASSUMPTIONS = [
     "time inside one exchange is constant except across an origin call (testing/synctest virtual clock)",
-    "net/http, net/url, encoding/json, httputil.DumpResponse/ReadResponse are taken as given (glue / Codec)",
+    "net/http, net/url, encoding/json (valid UTF-8 strings pass unchanged), encoding/base64, httputil.DumpResponse/ReadResponse are taken as given (glue / Codec)",
+    "the harness process runs with a local time zone of UTC+9 (VERIF_TZ_OFFSET)",
     "HTTPCACHE_ALLOW_UTC_DATETIMEFORMAT is unset",
     "variant indexes hold fewer than 12 references (slices.SortFunc is then a stable insertion sort)",
 ]
@@ -24,7 +25,7 @@ PROPS = {
     "C07": _p(4000, 60000),
     "C08": _p(4000, 60000),
     "C09": _p(4000, 60000),
-    "C19": _p(1500, 20000),
+    "C19": _p(1500, 8000),
     "C12": _p(4000, 60000),
     "C16": dict(_p(3000, 30000, assumptions=["the Go memory model: data-race freedom itself is evidenced by the race detector on the seeded concurrent histories (support, not proof)"]), race=600),
     "C14": _p(90, 900, mode="store", tb=["os.Root, the file system and encoding/base64 (the model's b64url is compared with the files found on disk)"]),
